@@ -417,7 +417,44 @@ wait:
 var reFrame = regexp.MustCompile(`(?m)^(github\.com/lmorg/murex/[^\s(]+)`)
 
 // crashSignature: a stable clause for a worker that died without reporting
+// raceSignature: the unordered pair of innermost murex frames of a ThreadSanitizer report
+func raceSignature(stderr string) string {
+	i := strings.Index(stderr, "WARNING: DATA RACE")
+	if i < 0 {
+		return ""
+	}
+	rep := stderr[i:]
+	if j := strings.Index(rep, "=================="); j > 0 {
+		rep = rep[:j]
+	}
+	// the report has one stack per access: "<Write|Read> at ... by goroutine N:" / "Previous <write|read> at ... by goroutine M:"
+	var frames []string
+	for _, sec := range regexp.MustCompile(`(?m)^(?:Previous )?(?:[Ww]rite|[Rr]ead|[Aa]tomic [a-z]+) at `).Split(rep, -1)[1:] {
+		if k := strings.Index(sec, "\n\n"); k > 0 {
+			sec = sec[:k]
+		}
+		f := "?"
+		for _, m := range regexp.MustCompile(`(?m)^  (\S+)\(\)\s*$`).FindAllStringSubmatch(sec, -1) {
+			fn := m[1]
+			if strings.Contains(fn, "/utils/simrt.") || strings.HasPrefix(fn, "runtime.") || strings.HasPrefix(fn, "sync.") || strings.HasPrefix(fn, "sync/atomic.") {
+				continue
+			}
+			f = strings.TrimPrefix(fn, "github.com/lmorg/murex/")
+			break
+		}
+		frames = append(frames, f)
+		if len(frames) == 2 {
+			break
+		}
+	}
+	sort.Strings(frames)
+	return "data-race[" + strings.Join(frames, " | ") + "]"
+}
+
 func crashSignature(stderr string) (clause string) {
+	if r := raceSignature(stderr); r != "" {
+		return r
+	}
 	kind := "crash"
 	switch {
 	case strings.Contains(stderr, "WARNING: DATA RACE"):
